@@ -81,6 +81,12 @@ func c19WVFile(r *rand.Rand) []byte {
 		count = uint32(n) + 1 + uint32(r.Intn(3))
 	case 2:
 		count = 1 << 28
+	case 3: // counts whose byte requirement wraps around 2^32 to something small (entry = 2 + 4*100 bytes plus the word)
+		k := uint64(1 + r.Intn(3))
+		e := uint64(402 + r.Intn(4))
+		count = uint32((k<<32 + e - 1) / e)
+	case 4:
+		count = []uint32{1 << 31, 1 << 30, 3 << 30, 1<<31 + 1}[r.Intn(4)]
 	}
 	put32(count)
 	words := []string{"tar", "zip", "files", "日本", "", "a b", "x"}
@@ -124,7 +130,6 @@ func c19CEFile(r *rand.Rand) []byte {
 	case 2:
 		count = 1 << 27
 	}
-	put32(count)
 	d := uint32(100)
 	switch r.Intn(8) {
 	case 0:
@@ -134,6 +139,15 @@ func c19CEFile(r *rand.Rand) []byte {
 	case 2:
 		d = 0xFFFFFFFF
 	}
+	if r.Intn(6) == 0 && d > 0 && d < 1000 { // count * 4 * d wraps around 2^32 to something small
+		k := uint64(1 + r.Intn(3))
+		e := uint64(4 * d)
+		count = uint32((k<<32 + e - 1) / e)
+		if r.Intn(2) == 0 {
+			count = []uint32{1 << 28, 1 << 30, 1 << 31, 3 << 28}[r.Intn(4)]
+		}
+	}
+	put32(count)
 	put32(d)
 	for i := 0; i < n; i++ {
 		for _, x := range c19Vec(r, 100) {
